@@ -4,7 +4,7 @@ package main
 //
 //	hash <ev|pk> S=<sym>:<num>,… U=<rkey>,… <op> <op> …
 //	  rkey : y.<name> | s.<letters> | i.<int> | c.<codepoint> | a.<one of these>   ([k])
-//	  op   : set/<rkey>/<int> del/<rkey> get/<rkey> getd/<rkey> keys len hpair/<n> range str json
+//	  op   : set/<rkey>/<int> del/<rkey> get/<rkey> getd/<rkey> keys len hpair/<n> range ranged str json
 //	         obs  (= every observer: get+getd of each U key, keys, len, hpair 0..|U|, range, str, json)
 //	answer: per op the observation(s) ("|" between the members of obs), ";" between ops.
 //
@@ -285,8 +285,13 @@ func (r *hashEv) op(t []string) string {
 			return e
 		}
 		return hashShowPair(res)
-	case "range":
-		res, e := r.eval("(let [accC14 []] {for kC14, vC14 = range hC14 { accC14 = (append accC14 [kC14 vC14]) }} accC14)")
+	case "range", "ranged":
+		// "ranged" is the defining form `k, v := range h` (lowered to mdef); see notes/C14.known.json
+		src := "(let [accC14 []] {for kC14, vC14 = range hC14 { accC14 = (append accC14 [kC14 vC14]) }} accC14)"
+		if t[0] == "ranged" {
+			src = "(let [accC14 []] {for kC14, vC14 := range hC14 { accC14 = (append accC14 [kC14 vC14]) }} accC14)"
+		}
+		res, e := r.eval(src)
 		if e != "" {
 			return e
 		}
@@ -424,7 +429,7 @@ func (r *hashPk) op(t []string) string {
 			return e
 		}
 		return hashShowPair(res)
-	case "range":
+	case "range", "ranged":
 		// what the lowering of `for k, v = range h` does: __rangeLen once, __rangePair per index
 		res, e := r.call(zygo.RangeLenFunction, "__rangeLen", r.h)
 		if e != "" {
@@ -587,7 +592,7 @@ func hashGen(g *Gen) {
 	uB := []string{"s.ab", "i." + strconv.Itoa(fab), "y.zk1", "a.y.zk1", "a.s.ab", "c.97"}
 	uC := []string{"y.zk0", "y.zk1", "i." + strconv.Itoa(n0), "i." + strconv.Itoa(n1), "a.y.zk0", "s.zk0", "c.48", "i.48", "a.c.48", "s.q", "i.-1", "i.0", "a.i.0"}
 
-	exhaustive := func(route string, u []string, L int) {
+	exhaustive := func(route string, u []string, L int, everyStep bool) {
 		muts := make([]string, 0, 2*len(u))
 		for _, k := range u {
 			muts = append(muts, "set/"+k, "del/"+k)
@@ -600,7 +605,10 @@ func hashGen(g *Gen) {
 				if strings.HasPrefix(op, "set/") {
 					op += "/" + strconv.Itoa(p+1)
 				}
-				parts = append(parts, op, "obs")
+				parts = append(parts, op)
+				if everyStep || p == L-1 {
+					parts = append(parts, "obs")
+				}
 			}
 			g.Emit("%s %s U=%s %s", route, symtab, strings.Join(u, ","), strings.Join(parts, " "))
 			g.Count(fmt.Sprintf("exhaustive %s |U|=%d L=%d", route, len(u), L))
@@ -618,16 +626,22 @@ func hashGen(g *Gen) {
 			}
 		}
 	}
+	// the one history of the known finding (`:=` range over keys of different types); `ranged` is
+	// deliberately used nowhere else
+	g.Emit("ev S= U=i.5,s.ab set/i.5/1 set/s.ab/2 ranged")
+	g.Count("known-finding probe (ranged)")
 	if g.Thorough() {
-		exhaustive("pk", uA, 6) // 10^6 histories, every prefix observed
-		exhaustive("pk", uB, 5)
-		exhaustive("ev", uA, 4)
-		exhaustive("ev", uB, 3)
+		// (the answers of all lines are held in memory by the check, which bounds the enumeration)
+		exhaustive("pk", uA, 5, true)      // 10^5 histories, every prefix observed
+		exhaustive("pk", uA[:4], 6, false) // 8^6 = 262144 histories, bookkeeping dumped after every op, full observation at the end
+		exhaustive("pk", uB, 4, true)
+		exhaustive("ev", uA, 4, true)
+		exhaustive("ev", uB, 3, true)
 	} else {
-		exhaustive("pk", uA, 4)
-		exhaustive("pk", uB, 3)
-		exhaustive("ev", uA, 3)
-		exhaustive("ev", uB, 2)
+		exhaustive("pk", uA, 4, true)
+		exhaustive("pk", uB, 3, true)
+		exhaustive("ev", uA, 3, true)
+		exhaustive("ev", uB, 2, true)
 	}
 
 	// random histories up to length 200 over the union, all ops, both routes
